@@ -18,6 +18,10 @@ PROBES = ['lib_step', 'mp_step', 'inst_step', 'gen_step', 'taut_step', 'load_emi
 ASSUMPTIONS = ['well-formed workload: argument patterns are well-formed by the documented judgement and explicit instantiations are legal by R3 (DESIGN.md 3.1)']
 
 
+# (exception type, innermost toolkit function) pairs that are a rule refusing its premises, judged when the lazy thunk is run
+LEGITIMATE_REFUSALS = {('AssertionError', 'exists_generalization'), ('AssertionError', 'modus_ponens')}
+
+
 def generate(rng, tier):
     if rng.random() < 0.02:
         # memory pressure: many distinct memoisable patterns next to a few axioms (the 256-slot budget)
@@ -134,6 +138,12 @@ def execute(sc, ctx, want=('C02',)):
             out.refused = True
             out.event('refused-at-serialise', opt, type(e).__name__, str(e)[:80])
             refusals[opt] = type(e).__name__
+            import traceback as _tb
+            fn = next((f.name for f in reversed(_tb.extract_tb(e.__traceback__)) if 'proof_generation' in f.filename), '?')
+            if 'C02' in want and (type(e).__name__, fn) not in LEGITIMATE_REFUSALS:
+                # thunks are lazy: the only thing an interpreter may still refuse at this point is a rule whose side condition fails
+                out.violate('a module the toolkit assembled serialises, unless a rule application in it is inapplicable', 'C02|unexpected-refusal|%s|%s' % (type(e).__name__, fn),
+                            'optimize=%s: %s: %s' % (opt, type(e).__name__, str(e)[:300]))
             continue
         if symlog:
             n2i, i2n = {}, {}
